@@ -284,12 +284,30 @@ def run_corr(prop, binary, tier, seed, timeout):
 
 # ------------------------------------------------------------------ search / known findings
 
+def _limit_address_space():
+    # a library call that allocates without bound must kill the search process, not the machine
+    import resource
+    lim = 12 * 1024 ** 3
+    resource.setrlimit(resource.RLIMIT_AS, (lim, lim))
+
+
 def run_search(prop, binary, tier, seed):
     try:
-        rc, out = run([binary, "search", prop, tier, str(seed)], timeout=3000)
+        p = subprocess.run([binary, "search", prop, tier, str(seed)], env=ENV, stdout=subprocess.PIPE,
+                           stderr=subprocess.STDOUT, timeout=3000, text=True, errors="replace",
+                           preexec_fn=_limit_address_space)
+        rc, out = p.returncode, p.stdout
     except subprocess.TimeoutExpired:
         return None, "search timed out"
     if rc != 0:
+        # calls that may exhaust memory are announced on stderr ("CALL ...") before they are made
+        calls = [l for l in out.splitlines() if l.startswith("CALL ")]
+        if calls:
+            what = (f"the search process died (exit status {rc}: allocation failure, abort or kill) during "
+                    f"{calls[-1][5:]}: " + " ".join(out.splitlines()[-2:])[-200:])
+            return {"evaluations": len(calls), "distinct_nontrivial": len(calls), "rule": "search aborted",
+                    "samples": [], "distribution": {}, "exhaustive": False,
+                    "violations": [{"key": "abort", "what": what}]}, ""
         return None, f"search failed rc={rc}: {out[-400:]}"
     line = [l for l in out.splitlines() if l.startswith("{")]
     if not line:
